@@ -44,6 +44,7 @@ type hashCollector struct {
 	readPaths map[string]token.Pos
 	visiting  map[*ssa.Function]int
 	problems  []string
+	phiOpen   map[*ssa.Phi]bool // phis being expanded by src (cycles through loop headers)
 }
 
 func (hc *hashCollector) primKind(f *ssa.Function) string {
@@ -141,9 +142,25 @@ func (hc *hashCollector) src(v ssa.Value, env map[ssa.Value][]hsrc, d int) []hsr
 		return mapx(hc.allocStores(x, env, d), "boxed")
 	case *ssa.Phi:
 		var out []hsrc
+		if carriedUnchanged(x) {
+			// a variable that keeps its value from the previous trip around a loop on some path: what is encoded for this
+			// element can be what was computed for an earlier one
+			out = append(out, hsrc{path: "?carried over from a previous element (" + x.Comment + ")"})
+		}
+		if hc.phiOpen == nil {
+			hc.phiOpen = map[*ssa.Phi]bool{}
+		}
+		if hc.phiOpen[x] {
+			return out
+		}
+		hc.phiOpen[x] = true
 		for _, e := range x.Edges {
+			if e == ssa.Value(x) {
+				continue
+			}
 			out = append(out, hc.src(e, env, d+1)...)
 		}
+		delete(hc.phiOpen, x)
 		return out
 	case *ssa.MakeInterface:
 		return hc.src(x.X, env, d+1)
@@ -172,6 +189,9 @@ func (hc *hashCollector) src(v ssa.Value, env map[ssa.Value][]hsrc, d int) []hsr
 		switch calleeName(x) {
 		case "(time.Time).Unix":
 			return mapx(hc.src(x.Call.Args[0], env, d+1), ".Unix()")
+		}
+		if out := hc.srcThroughCall(x, env, d); out != nil {
+			return out
 		}
 		return []hsrc{{path: "?call " + trimMod(calleeName(x))}}
 	}
@@ -666,13 +686,37 @@ func (hc *hashCollector) inlinePresence(ex hexpect) *henc {
 // nilPreservingBox: v = phi(nil, &local) where the local is assigned on the
 // non-nil edge of a test of the pointer it was converted from.
 func nilPreservingBox(v ssa.Value) bool {
-	phi, ok := v.(*ssa.Phi)
-	if !ok || len(phi.Edges) != 2 {
+	var edges []ssa.Value
+	switch x := v.(type) {
+	case *ssa.Phi:
+		edges = x.Edges
+	case *ssa.Call:
+		// a helper of the module that returns nil for a nil pointer and a box of [f](*p) otherwise
+		h := x.Call.StaticCallee()
+		if h == nil || x.Call.IsInvoke() || len(h.Blocks) == 0 || !strings.HasPrefix(fnPkgPath(h), modPath) {
+			return false
+		}
+		for _, b := range h.Blocks {
+			if ret, ok := b.Instrs[len(b.Instrs)-1].(*ssa.Return); ok {
+				if len(ret.Results) != 1 {
+					return false
+				}
+				if phi, isPhi := ret.Results[0].(*ssa.Phi); isPhi {
+					edges = append(edges, phi.Edges...)
+				} else {
+					edges = append(edges, ret.Results[0])
+				}
+			}
+		}
+	default:
+		return false
+	}
+	if len(edges) != 2 {
 		return false
 	}
 	var box *ssa.Alloc
 	nils := 0
-	for _, e := range phi.Edges {
+	for _, e := range edges {
 		if isNilConst(e) {
 			nils++
 		} else if a, ok := e.(*ssa.Alloc); ok {
@@ -698,9 +742,9 @@ func nilPreservingBox(v ssa.Value) bool {
 	if n != 1 {
 		return false
 	}
-	// stored = [conv](*(ptrload))
+	// stored = [conv | t.Unix() | f(...)](*(ptrload)); what f is, is checked where the sources are computed
 	sv := stripConv(stored)
-	if call, ok := sv.(*ssa.Call); ok && calleeName(call) == "(time.Time).Unix" {
+	if call, ok := sv.(*ssa.Call); ok && !call.Call.IsInvoke() && len(call.Call.Args) == 1 && (calleeName(call) == "(time.Time).Unix" || call.Call.StaticCallee() == nil) {
 		sv = call.Call.Args[0]
 	}
 	ld, ok := sv.(*ssa.UnOp)
@@ -708,25 +752,26 @@ func nilPreservingBox(v ssa.Value) bool {
 		return false
 	}
 	ptrCanon := canon(ld.X)
-	cnd := conds[0]
-	b, ok := cnd.Cond.(*ssa.BinOp)
-	if !ok {
-		return false
+	// some dominating condition establishes ptr != nil
+	for _, cnd := range conds {
+		b, ok := cnd.Cond.(*ssa.BinOp)
+		if !ok {
+			continue
+		}
+		var tested ssa.Value
+		if isNilConst(b.Y) {
+			tested = b.X
+		} else if isNilConst(b.X) {
+			tested = b.Y
+		} else {
+			continue
+		}
+		nonNil := (b.Op == token.NEQ && cnd.Val) || (b.Op == token.EQL && !cnd.Val)
+		if nonNil && canon(tested) == ptrCanon {
+			return true
+		}
 	}
-	var tested ssa.Value
-	if isNilConst(b.Y) {
-		tested = b.X
-	} else if isNilConst(b.X) {
-		tested = b.Y
-	} else {
-		return false
-	}
-	nonNil := (b.Op == token.NEQ && cnd.Val) || (b.Op == token.EQL && !cnd.Val)
-	if !nonNil || canon(tested) != ptrCanon {
-		return false
-	}
-	// the nil edge of the phi must come from the test's other branch (or a block it dominates without the box)
-	return true
+	return false
 }
 
 func elementLoopIsFullRange(e henc) (bool, string) {
@@ -849,46 +894,100 @@ func runHashPrimitives(c *Ctx, prims map[*ssa.Function]string) {
 		c.Check(lenCall != nil && writeCall != nil && flushCall != nil && dominatesInstr(lenCall, flushCall) && dominatesInstr(flushCall, writeCall), "H4", fname, "flush between buffered length and direct write", p.pos(f.Pos()),
 			"flush() lies between number(len) and the direct Write", "the buffered numbers are not flushed before the string bytes are written directly to the hash: bytes reach the hash out of order")
 	}
-	// H3 presence encoders
+	// H3 presence encoders, decided path by path: every path from entry to return writes the presence flag first and
+	// exactly once -- as the expression ptr == nil / ptr != nil, or as a constant on a path that has already tested the
+	// pointer, with one polarity throughout -- and then, exactly on the paths where the pointer is not nil, the pointee;
+	// nothing else is written.
 	checkPresence := func(f *ssa.Function, inner func(call *ssa.Call, ptr ssa.Value) bool, what string) {
 		if f == nil {
 			return
 		}
 		fname := shortName(f)
 		ptr := f.Params[len(f.Params)-1]
-		var flag, val ssa.Instruction
-		for _, b := range f.Blocks {
-			for _, in := range b.Instrs {
-				call, ok := in.(*ssa.Call)
-				if !ok {
-					continue
-				}
-				if staticCallee(call) == number && flag == nil {
-					if mi, ok := call.Call.Args[1].(*ssa.MakeInterface); ok {
-						if bo, ok := mi.X.(*ssa.BinOp); ok && (bo.Op == token.EQL || bo.Op == token.NEQ) && (bo.X == ptr && isNilConst(bo.Y)) {
-							flag = call
+		flagBad, valBad := "", ""
+		absentMeans := map[bool]bool{} // the flag value written for "absent"
+		nPaths := enumPaths(f, func(path []*ssa.BasicBlock) {
+			known, isNil := false, false // what the path has established about ptr so far
+			nFlag, nVal := 0, 0
+			for i, blk := range path {
+				for _, in := range blk.Instrs {
+					call, ok := in.(*ssa.Call)
+					if !ok {
+						continue
+					}
+					isWrite := staticCallee(call) == number || inner(call, ptr) || prims[originOf(staticCallee(call))] != ""
+					if !isWrite {
+						continue
+					}
+					if nFlag == 0 {
+						// must be the flag
+						if staticCallee(call) != number {
+							flagBad = "something is encoded before the presence flag"
 							continue
+						}
+						nFlag++
+						arg := call.Call.Args[1]
+						if mi, ok := arg.(*ssa.MakeInterface); ok {
+							arg = mi.X
+						}
+						switch x := arg.(type) {
+						case *ssa.BinOp:
+							if (x.Op == token.EQL || x.Op == token.NEQ) && x.X == ssa.Value(ptr) && isNilConst(x.Y) {
+								absentMeans[x.Op == token.EQL] = true
+							} else {
+								flagBad = "the first value written is not the pointer's presence"
+							}
+						case *ssa.Const:
+							bv, isB := constBool(x)
+							if !isB || !known {
+								flagBad = "a constant flag is written on a path that has not tested the pointer"
+							} else {
+								absentMeans[bv == isNil] = true
+							}
+						default:
+							flagBad = "the first value written is not the pointer's presence"
+						}
+						continue
+					}
+					if inner(call, ptr) {
+						nVal++
+						if !(known && !isNil) {
+							valBad = "the pointee is encoded on a path that has not established ptr != nil"
+						}
+						continue
+					}
+					valBad = "more than (flag, pointee) is written"
+				}
+				// the edge taken to the next block
+				if i+1 < len(path) {
+					if iff, ok := blk.Instrs[len(blk.Instrs)-1].(*ssa.If); ok {
+						if bo, ok := iff.Cond.(*ssa.BinOp); ok && (bo.Op == token.EQL || bo.Op == token.NEQ) && bo.X == ssa.Value(ptr) && isNilConst(bo.Y) {
+							taken := blk.Succs[0] == path[i+1]
+							known = true
+							isNil = (bo.Op == token.EQL) == taken
 						}
 					}
 				}
-				if inner(call, ptr) {
-					val = call
-				}
 			}
-		}
-		c.Check(flag != nil && flag.Block() == f.Blocks[0], "H3", fname, "presence flag", p.pos(f.Pos()),
-			"number(a == nil) is written on every path", what+": presence flag is not written unconditionally: an absent value and a present one are not distinguished")
-		okVal := false
-		if val != nil {
-			for _, ce := range dominatingConds(val.Block()) {
-				if bo, ok := ce.Cond.(*ssa.BinOp); ok && bo.X == ptr && isNilConst(bo.Y) {
-					if (bo.Op == token.NEQ && ce.Val) || (bo.Op == token.EQL && !ce.Val) {
-						okVal = true
-					}
-				}
+			if nFlag != 1 {
+				flagBad = "a path writes no presence flag"
 			}
+			if known && !isNil && nVal != 1 {
+				valBad = "a path with a non-nil pointer does not encode the pointee exactly once"
+			}
+			if !known && nVal != 0 {
+				valBad = "the pointee is encoded without a nil test"
+			}
+			if !known && nVal == 0 && nFlag == 1 {
+				valBad = "a path never tests the pointer: the pointee is not encoded"
+			}
+		})
+		if len(absentMeans) > 1 {
+			flagBad = "the flag has different polarities on different paths"
 		}
-		c.Check(okVal, "H3", fname, "value on the non-nil edge", p.pos(f.Pos()), "the pointee is encoded exactly on the a != nil edge", what+": pointee is not encoded on the non-nil edge")
+		c.Check(flagBad == "" && nPaths > 0, "H3", fname, "presence flag", p.pos(f.Pos()),
+			"the pointer's presence is the first value written on every path, with one polarity", what+": "+flagBad+": an absent value and a present one are not distinguished")
+		c.Check(valBad == "" && nPaths > 0, "H3", fname, "value on the non-nil edge", p.pos(f.Pos()), "the pointee is encoded exactly on the paths with a != nil", what+": "+valBad)
 	}
 	if hnp := byKind["hashNumberPtr"]; hnp != nil {
 		fns := []*ssa.Function{hnp}
@@ -925,20 +1024,66 @@ func runHashPrimitives(c *Ctx, prims map[*ssa.Function]string) {
 	// timePtr: hashNumberPtr(h, phi(nil, &unix)) nil-preserving
 	if f := byKind["timePtr"]; f != nil {
 		fname := shortName(f)
-		ok := false
-		for _, b := range f.Blocks {
-			for _, in := range b.Instrs {
-				if call, isCall := in.(*ssa.Call); isCall && prims[originOf(staticCallee(call))] == "hashNumberPtr" {
-					if nilPreservingBox(call.Call.Args[1]) {
-						hc := &hashCollector{c: c, prims: prims}
-						for _, s := range hc.src(call.Call.Args[1], map[ssa.Value][]hsrc{f.Params[1]: {{path: "t"}}}, 0) {
-							if s.path == "t" && xfHas(s.xf, []string{"deref", ".Unix()", "boxed"}) {
-								ok = true
-							}
+		ok := true
+		tp := f.Params[1]
+		unixOfT := func(arg ssa.Value) bool {
+			hc := &hashCollector{c: c, prims: prims}
+			for _, s := range hc.src(arg, map[ssa.Value][]hsrc{tp: {{path: "t"}}}, 0) {
+				if !(s.path == "t" && xfHas(s.xf, []string{"deref", ".Unix()", "boxed"}) && xfOnly(s.xf, "deref", ".Unix()", "boxed")) && s.path != "nil" {
+					return false
+				}
+			}
+			return true
+		}
+		nPaths := enumPaths(f, func(path []*ssa.BasicBlock) {
+			known, isNil := false, false
+			n := 0
+			for i, blk := range path {
+				for _, in := range blk.Instrs {
+					call, isCall := in.(*ssa.Call)
+					if !isCall {
+						continue
+					}
+					k := prims[originOf(staticCallee(call))]
+					if k == "" {
+						continue
+					}
+					n++
+					if k != "hashNumberPtr" {
+						ok = false
+						continue
+					}
+					arg := call.Call.Args[1]
+					good := nilPreservingBox(arg) && unixOfT(arg) // nil for nil, &t.Unix() otherwise, decided in the argument
+					if known && isNil && isNilConst(arg) {
+						good = true
+					}
+					if known && !isNil {
+						// a box of t.Unix(), nothing else
+						if al, isAl := arg.(*ssa.Alloc); isAl && len(cellStores(al)) == 1 && unixOfT(arg) {
+							good = true
+						}
+					}
+					if !good {
+						ok = false
+					}
+				}
+				if i+1 < len(path) {
+					if iff, isIf := blk.Instrs[len(blk.Instrs)-1].(*ssa.If); isIf {
+						if bo, isBo := iff.Cond.(*ssa.BinOp); isBo && (bo.Op == token.EQL || bo.Op == token.NEQ) && bo.X == ssa.Value(tp) && isNilConst(bo.Y) {
+							taken := blk.Succs[0] == path[i+1]
+							known = true
+							isNil = (bo.Op == token.EQL) == taken
 						}
 					}
 				}
 			}
+			if n != 1 {
+				ok = false
+			}
+		})
+		if nPaths == 0 {
+			ok = false
 		}
 		c.Check(ok, "H3", fname, "nil-preserving Unix seconds", p.pos(f.Pos()), "timePtr passes nil for nil and &t.Unix() otherwise to hashNumberPtr (zone presentation is ignored, absence is kept)", "timePtr does not encode (presence, Unix seconds): either absence is lost or the zone presentation leaks into the hash")
 	}
@@ -1031,4 +1176,133 @@ func originOf(f *ssa.Function) *ssa.Function {
 		return o
 	}
 	return f
+}
+
+// carriedUnchanged: phi sits at a loop header and, along some back edge, receives its own value again (through joins
+// inside the body): the variable survives an iteration without being assigned.
+func carriedUnchanged(phi *ssa.Phi) bool {
+	blk := phi.Block()
+	for i, e := range phi.Edges {
+		pred := blk.Preds[i]
+		if !blk.Dominates(pred) {
+			continue // not a back edge
+		}
+		seen := map[ssa.Value]bool{}
+		var reaches func(v ssa.Value, d int) bool
+		reaches = func(v ssa.Value, d int) bool {
+			if v == ssa.Value(phi) {
+				return true
+			}
+			if seen[v] || d > 8 {
+				return false
+			}
+			seen[v] = true
+			if p2, ok := v.(*ssa.Phi); ok && blk.Dominates(p2.Block()) {
+				for _, e2 := range p2.Edges {
+					if reaches(e2, d+1) {
+						return true
+					}
+				}
+			}
+			return false
+		}
+		if reaches(e, 0) {
+			// range index counters and accumulators are not the subject here: only pointer / value variables
+			if _, isInt := phi.Type().Underlying().(*types.Basic); isInt && phi.Comment == "rangeindex" {
+				continue
+			}
+			return true
+		}
+	}
+	return false
+}
+
+// srcThroughCall: the sources of what a pure helper returns, in terms of the sources of its arguments. The helper is a
+// function of the module that is not part of the hasher (no hasher parameter), or a function value that resolves, at
+// every call site of the enclosing function, to such functions or to time.Time.Unix. nil: not such a call.
+func (hc *hashCollector) srcThroughCall(x *ssa.Call, env map[ssa.Value][]hsrc, d int) []hsrc {
+	if x.Call.IsInvoke() || d > 20 {
+		return nil
+	}
+	var fns []*ssa.Function
+	if f := x.Call.StaticCallee(); f != nil {
+		fns = []*ssa.Function{f}
+	} else {
+		fns = hc.c.funcValues(x.Call.Value, 0)
+	}
+	if len(fns) == 0 {
+		return nil
+	}
+	hs := hc.c.hashShapeOf()
+	var out []hsrc
+	for _, f := range fns {
+		if n := extName(f.String()); n == "(time.Time).Unix" || n == "time.Time.Unix" {
+			if len(x.Call.Args) != 1 {
+				return nil
+			}
+			for _, s := range hc.src(x.Call.Args[0], env, d+1) {
+				out = append(out, s.with(".Unix()"))
+			}
+			continue
+		}
+		if !hc.c.P.isModuleFn(f) || len(f.Blocks) == 0 || len(f.Params) != len(x.Call.Args) || len(f.FreeVars) != 0 || hc.visiting[f] > 0 {
+			return nil
+		}
+		for _, pa := range f.Params {
+			if typeName(pa.Type()) == hs.recv {
+				return nil
+			}
+		}
+		if f.Signature.Results().Len() != 1 {
+			return nil
+		}
+		env2 := map[ssa.Value][]hsrc{}
+		for i, pa := range f.Params {
+			if _, isFn := pa.Type().Underlying().(*types.Signature); isFn {
+				continue // function values are resolved where they are called
+			}
+			env2[pa] = hc.src(x.Call.Args[i], env, d+1)
+		}
+		if hc.visiting == nil {
+			hc.visiting = map[*ssa.Function]int{}
+		}
+		hc.visiting[f]++
+		for _, b := range f.Blocks {
+			if ret, ok := b.Instrs[len(b.Instrs)-1].(*ssa.Return); ok {
+				out = append(out, hc.src(ret.Results[0], env2, d+1)...)
+			}
+		}
+		hc.visiting[f]--
+	}
+	return out
+}
+
+// enumPaths calls visit for every acyclic path of fn from its entry to a return (loops are cut: a block occurs at most
+// once on a path). Returns the number of paths.
+func enumPaths(fn *ssa.Function, visit func(path []*ssa.BasicBlock)) int {
+	n := 0
+	if len(fn.Blocks) == 0 {
+		return 0
+	}
+	var rec func(b *ssa.BasicBlock, path []*ssa.BasicBlock, on map[*ssa.BasicBlock]bool)
+	rec = func(b *ssa.BasicBlock, path []*ssa.BasicBlock, on map[*ssa.BasicBlock]bool) {
+		if n > 5000 {
+			return
+		}
+		path = append(path, b)
+		on[b] = true
+		defer delete(on, b)
+		if _, isRet := b.Instrs[len(b.Instrs)-1].(*ssa.Return); isRet {
+			n++
+			visit(append([]*ssa.BasicBlock{}, path...))
+			return
+		}
+		for _, s := range b.Succs {
+			if !on[s] {
+				rec(s, path, on)
+			}
+		}
+	}
+	rec(fn.Blocks[0], nil, map[*ssa.BasicBlock]bool{})
+	return n
 }
